@@ -25,7 +25,7 @@ class FakeRandomState(CH.Fake):
 
     def random_sample(self, size=None):
         if size is None:
-            raise CH.UnownedRandomness("scalar random_sample")
+            return float((0.35, 0.8, 0.55)[self.ch.choose(3, "rs.random_sample", 0 if self.full_perm else 1)])
         shape = (size,) if isinstance(size, (int, np.integer)) else tuple(size)
         n = int(np.prod(shape))
         pats = [
@@ -41,6 +41,18 @@ class FakeRandomState(CH.Fake):
         perms = list(itertools.permutations(range(n)))
         p = perms[self.ch.choose(len(perms), "rs.permutation", 0 if self.full_perm else 1)]
         return np.array([base[i] for i in p])
+
+    def shuffle(self, x):
+        p = self.permutation(range(len(x)))
+        vals = [x[int(i)] for i in p]
+        for i, v in enumerate(vals):
+            x[i] = v
+
+    def rand(self, *shape):
+        return self.random_sample(shape if shape else None)
+
+    def random(self, size=None):
+        return self.random_sample(size)
 
     def randint(self, low, high=None, size=None):
         return int(low) + self.ch.choose(2, "rs.randint", 0 if self.full_perm else 1)
@@ -126,7 +138,7 @@ def check_mt(item, acc):
         return m, u, w, L, fac
 
     try:
-        for script, res, ch, pruned in CH.explore(run, max_dev=None if full_perm else D_dev):
+        for script, res, ch, pruned in acc.explore(run, max_dev=None if full_perm else D_dev):
             acc.evaluations += 1
             m, u, w, L, fac = res
             ws = dict(wit, script=list(script))
@@ -318,7 +330,7 @@ def run(ctx):
     its = list(items(ctx.tier))
     k = ctx.jobs * 8
     shards = [its[i::k] for i in range(k)]
-    ev, nt, oc = run_e4(ctx, [it for s in shards for it in s], worker, nchunks=k)
+    ev, nt, oc = run_e4(ctx, [it for s in shards for it in s], worker, nchunks=k, budget=4000000 if ctx.tier == "quick" else 80000000, config_cap=12000 if ctx.tier == "quick" else 240000)
     ctx.part("inputs", executions=ev, scripted_configurations=sum(1 for kd, _ in its if kd == "mt"), real_generator_inputs=sum(1 for kd, _ in its if kd == "real"))
     ctx.require(len(its) > 50, "corpus too small")
     it = [x for x in its if x[0] == "mt"][(ctx.seed * 7 + 3) % sum(1 for kd, _ in its if kd == "mt")][1]
@@ -326,7 +338,8 @@ def run(ctx):
                 "min_value_par": it[7], "all_update_orders": it[8], "max_non_identity_orders": it[9]})
     cov = {
         "seam_validation": seam_report,
-        "evaluations": ev, "distinct_nontrivial": len(nt), "exhaustive": True, "distinct_outcomes": len(oc), "configurations": len(its),
+        "evaluations": ev, "distinct_nontrivial": len(nt), "exhaustive": not (ctx.counts.get("configurations-capped-by-budget", 0) or ctx.counts.get("configurations-skipped-budget-exhausted", 0)),
+        "configurations_capped_or_skipped_by_execution_budget": ctx.counts.get("configurations-capped-by-budget", 0) + ctx.counts.get("configurations-skipped-budget-exhausted", 0), "distinct_outcomes": len(oc), "configurations": len(its),
         "rule": "hypergraphs with 2-3 hyperedges of size 2-3 over the labels {2,5,7,11} (+ isolated nodes, a weighted one, one with node 13 isolated); K=2; "
                 "normalizeU F/T; min_value_par in {1e-5, 0}; scripted RandomState: initial matrices from a 3-pattern menu (every combination when all orders are enumerated, otherwise counted as deviations), the node-update "
                 "permutation of each EM iteration over ALL N! orders (N<=4, max_iter 1; N<=3 for max_iter 2) or with <= 1 (quick) / 2 non-identity orders among all "
